@@ -510,7 +510,9 @@ func readString(dst, b []byte) ([]byte, []byte, error) {
 	var n uint64
 
 	if len(b) == 0 {
-		return b, dst, errors.New("no bytes left reading a string. Malformed data?")
+		// Nothing of the string has arrived yet. Like a string cut further
+		// in, that is only an error if no more bytes are coming.
+		return b, dst, ErrUnexpectedSize
 	}
 
 	mustDecode := b[0]&128 == 128 // huffman encoded
